@@ -32,7 +32,7 @@ FEAT = features(list=2, annlist=2, union=1, tuple=1, cls=8, refined=3, nested=1,
 def budget(tier):
     if tier == "thorough":
         return {"runs": 150000, "run_timeout": 120, "max_wall": 1500}
-    return {"runs": 9000, "run_timeout": 60, "max_wall": 200}
+    return {"runs": 30000, "run_timeout": 60, "max_wall": 240}
 
 
 # ---------------------------------------------------------------- tree relation
